@@ -2,15 +2,206 @@
 
 package main
 
+import (
+	"os"
+	"sort"
+	"strconv"
+	"strings"
+
+	oid "github.com/nspcc-dev/neofs-sdk-go/object/id"
+	"go.uber.org/zap"
+	"go.uber.org/zap/zapcore"
+	"go.uber.org/zap/zaptest/observer"
+)
+
 // extraMain dispatches the subcommands of the other properties of the family.
 func extraMain(cmd string) bool {
 	switch cmd {
+	case "c08":
+		c08Main()
+	case "c08replay":
+		c08Replay()
 	default:
 		return false
 	}
+	return true
+}
+
+// engine logger observed by the harness: the engine reports per expired address whether
+// its lock check was skipped because of a shard error or the object was kept as locked.
+var (
+	logCore zapcore.Core
+	logObs  *observer.ObservedLogs
+)
+
+func engineLogger() *zap.Logger {
+	logCore, logObs = observer.New(zapcore.WarnLevel)
+	return zap.New(logCore)
 }
 
 // runExtra runs operations that only the C08 / C19 histories use.
 func (v *env) runExtra(u *universe, a absOp, o *op) bool {
-	return false
+	switch a.op {
+	case "newepoch":
+		// what StorageEngine.HandleNewEpoch does, synchronously: the metabase epoch source
+		// and every shard's GC learn the new epoch
+		v.epoch = uint64(a.a)
+		for i := range v.shards {
+			v.sh(i).VerifHandleEpoch(uint64(a.a))
+		}
+		*o = op{Op: "newepoch", A: a.a}
+	case "gcx":
+		*o = v.doGCX(u, a.i)
+	default:
+		return false
+	}
+	return true
+}
+
+// doGCX runs one GC pass of shard s including the expired-object processing. Extra:
+// for every universe object the outcome of the engine's lock check seen in its log
+// (0 none, 1 kept as locked, 2 lock check failed on a shard error and the object was
+// processed anyway), followed by the HRW orders of all objects (flattened, n per object).
+func (v *env) doGCX(u *universe, s int) op {
+	o := op{Op: "gcx", I: s}
+	n := len(v.shards)
+	for range u.objs {
+		o.Extra = append(o.Extra, 0)
+	}
+	for i := range u.objs {
+		o.Ord = append(o.Ord, v.sorted(u.objs[i].obj.GetID())...)
+	}
+	_ = n
+	logObs.TakeAll()
+	v.sh(s).VerifRemoveGarbage()
+	for _, e := range logObs.TakeAll() {
+		code := 0
+		switch {
+		case strings.HasPrefix(e.Message, "removing an object without full locking check"):
+			code = 2
+		case strings.HasPrefix(e.Message, "skip an expired object with lock"):
+			code = 1
+		default:
+			continue
+		}
+		for _, f := range e.Context {
+			if f.Key == "addr" {
+				str := f.String
+				if f.Interface != nil {
+					str = f.Interface.(interface{ String() string }).String()
+				}
+				var a oid.Address
+				if err := a.DecodeString(str); err == nil {
+					if i, ok := u.byID[a.Object()]; ok {
+						o.Extra[i] = code
+					}
+				}
+			}
+		}
+	}
+	return o
+}
+
+// rank of the universe objects by raw object ID (the order of metabase iterations)
+func (u *universe) rank() []int {
+	idx := make([]int, len(u.objs))
+	for i := range idx {
+		idx[i] = i
+	}
+	sort.Slice(idx, func(a, b int) bool {
+		x, y := u.objs[idx[a]].obj.GetID(), u.objs[idx[b]].obj.GetID()
+		return string(x[:]) < string(y[:])
+	})
+	return idx
+}
+
+// genC08: histories over 2-3 shards mixing puts of objects, locks and tombstones with mode
+// flips, put failures, GC passes and epoch advances. Every accepted-looking lock put is
+// followed by a read of its target; targets are read again and again later.
+func genC08(seed uint64, idx int) *plan {
+	r := newRng(seed*1000003 + uint64(idx)*104729 + 8)
+	p := &plan{idSeed: r.u64()}
+	p.n = 2 + r.intn(2)
+	p.thr = []int{0, 0, 0, 2, 3}[r.intn(5)]
+	const maxEpoch = 5
+	p.u = newUniverse(r, 3, 1, 3, 3, maxEpoch)
+	// make tombstones and locks collide on few targets
+	nobj := len(p.u.objs)
+	epoch := 0
+	nops := 20 + r.intn(25)
+	var locks, tss, data []int
+	for i, x := range p.u.objs {
+		switch x.Kind {
+		case kLock:
+			locks = append(locks, i)
+		case kTS:
+			tss = append(tss, i)
+		default:
+			data = append(data, i)
+		}
+	}
+	for k := 0; k < nops; k++ {
+		w := r.intn(100)
+		switch {
+		case w < 14:
+			p.ops = append(p.ops, absOp{op: "put", i: data[r.intn(len(data))]})
+		case w < 28:
+			l := locks[r.intn(len(locks))]
+			p.ops = append(p.ops, absOp{op: "put", i: l})
+			p.ops = append(p.ops, absOp{op: "get", i: p.u.objs[l].Target})
+		case w < 42:
+			t := tss[r.intn(len(tss))]
+			p.ops = append(p.ops, absOp{op: "put", i: t})
+			if p.u.objs[t].Target < len(data) {
+				p.ops = append(p.ops, absOp{op: "get", i: p.u.objs[t].Target})
+			}
+		case w < 58:
+			p.ops = append(p.ops, absOp{op: "get", i: data[r.intn(len(data))]})
+		case w < 62:
+			p.ops = append(p.ops, absOp{op: "head", i: data[r.intn(len(data))]})
+		case w < 74:
+			m := []int{0, 0, 0, 1, 1, 3, 2}[r.intn(7)]
+			p.ops = append(p.ops, absOp{op: "mode", i: r.intn(p.n), a: m, b: r.intn(2)})
+		case w < 82:
+			p.ops = append(p.ops, absOp{op: "fault", i: r.intn(p.n), a: 0, b: r.intn(2)})
+		case w < 88:
+			if epoch <= maxEpoch {
+				epoch++
+			}
+			p.ops = append(p.ops, absOp{op: "newepoch", a: epoch})
+		default:
+			p.ops = append(p.ops, absOp{op: "gcx", i: r.intn(p.n)})
+		}
+	}
+	for _, i := range data {
+		p.ops = append(p.ops, absOp{op: "get", i: i})
+	}
+	_ = nobj
+	return p
+}
+
+func c08Main() {
+	count := 40
+	if len(os.Args) > 2 {
+		count, _ = strconv.Atoi(os.Args[2])
+	}
+	seed := seedFromEnv()
+	for idx := 0; idx < count; idx++ {
+		p := genC08(seed, idx)
+		h := runPlan(p, -1)
+		h.Rank = p.u.rank()
+		emit(h)
+	}
+}
+
+func c08Replay() {
+	idx, _ := strconv.Atoi(os.Args[2])
+	limit := -1
+	if len(os.Args) > 3 {
+		limit, _ = strconv.Atoi(os.Args[3])
+	}
+	p := genC08(seedFromEnv(), idx)
+	h := runPlan(p, limit)
+	h.Rank = p.u.rank()
+	emit(h)
 }
